@@ -80,6 +80,9 @@ func devirtualize(c *Ctx) {
 						if _, isSig := f.Type().Underlying().(*types.Signature); isSig {
 							stores[f] = append(stores[f], st.Val)
 						}
+						if _, isIface := f.Type().Underlying().(*types.Interface); isIface {
+							stores[f] = append(stores[f], st.Val)
+						}
 					}
 				}
 			}
@@ -100,7 +103,19 @@ func devirtualize(c *Ctx) {
 					}
 					impl := implementers(n)
 					if len(impl) != 1 {
-						continue
+						// several types implement it: the value may still be fixed — read from a field that is stored exactly
+						// once in the module, with a value of one concrete type
+						impl = nil
+						if ld, isLd := cc.Value.(*ssa.UnOp); isLd {
+							if f := fieldOf(ld.X); f != nil && len(stores[f]) == 1 {
+								if mi, isMI := stores[f][0].(*ssa.MakeInterface); isMI {
+									impl = []types.Type{mi.X.Type()}
+								}
+							}
+						}
+						if len(impl) != 1 {
+							continue
+						}
 					}
 					sel := c.Prog.MethodSets.MethodSet(impl[0]).Lookup(cc.Method.Pkg(), cc.Method.Name())
 					if sel == nil {
